@@ -93,11 +93,17 @@ def check(ctx, args):
                 continue
             stage_dir = "/".join(p for p in s["site"].split(".") if not p.startswith(("chnk", "split", "join")))
             names = " ".join(r.get("error_names") or [])
-            if stage_dir.rsplit("/fork", 1)[0] not in names:
+            stage_path = stage_dir.rsplit("/fork", 1)[0]
+            if stage_path not in names and stage_path.replace("/", ".") not in names:
                 fail("error_does_not_name_failing_stage", "report %r does not name %s" % (names[-200:], stage_dir))
             last = incs[-1]
-            if last["exit"] != 0 or r.get("outs") != pipelib.clean_outs(s["dir"]):
-                if s["kind"] in CONTENT:
+            if last["exit"] == 0 and r.get("outs") != pipelib.clean_outs(s["dir"]):
+                fail("restart_after_fix_wrong_result", "restart completes but the outs differ from the clean run")
+            elif last["exit"] != 0:
+                evf = os.path.join(s["dir"], "%s.inc1.events" % s["psid"])
+                rerun = os.path.exists(evf) and any(
+                    l.split()[1:3] == ["start", s["site"]] for l in open(evf) if len(l.split()) > 2)
+                if s["kind"] in CONTENT and len(incs) >= 2 and not rerun:
                     fail("restart_after_invalid_outs_does_not_rerun", "restart after removing the fault exits %d" % last["exit"])
                 else:
                     fail("restart_after_fix_fails", "restart after removing the fault exits %d / outs differ" % last["exit"])
@@ -109,6 +115,8 @@ def check(ctx, args):
             for k, j in evs:
                 if k == "EFail":
                     failed.add(j)
+                if k == "EReset":
+                    failed.discard(j)
                 if k == "EStart" and j in failed:
                     evs2.append(("EReset", j))
                     failed.discard(j)
